@@ -66,9 +66,8 @@ impl End {
                 for s in segs.iter() {
                     // (C17) data is never sent beyond the right edge of the window the peer advertised
                     let end = s.header.seq.wrapping_add(s.text.len() as u32);
-                    // (while the endpoint's own SYN is unacknowledged the code is off by the SYN's sequence number: known finding
-                    //  tcb.kani.scenario.window_counts_the_unacknowledged_syn, decided by its own scenario)
-                    assert!(s.text.len() == 0 || tcb.snd.una == tcb.snd.iss || end.wrapping_sub(tcb.snd.una) <= tcb.snd.wnd as u32 || end.wrapping_sub(tcb.snd.una) >= 0x8000_0000,
+                    // (a retransmitted segment may lie behind SND.UNA: its end is then "negative" in circular terms)
+                    assert!(s.text.len() == 0 || end.wrapping_sub(tcb.snd.una) <= tcb.snd.wnd as u32 || end.wrapping_sub(tcb.snd.una) >= 0x8000_0000,
                         "a data segment ends {} octets after SND.UNA although SND.WND is {}", end.wrapping_sub(tcb.snd.una), tcb.snd.wnd);
                     // trace relative to the initial sequence numbers (C12: independent of their absolute values)
                     let rel_ack = if s.header.ctl.ack() { s.header.ack.wrapping_sub(tcb.rcv.irs) } else { 0 };
